@@ -13,7 +13,12 @@ CORR_ONLY = ["'within six standard errors' (standard error estimated from repeat
              "history independence of Vegas and brute force beyond the model (class D, bit-for-bit against a fresh process)"]
 ASSUMPTIONS = ["std::random_device::_M_getval is the only entropy source of the integrators (interposed by the harness with a fixed value)",
                "std::mt19937 / generate_canonical as in libstdc++ 12 (validated by C18)",
-               "Miser: x^(2/3) by a 2^-300 Newton cube root in the driver; TINY/BIG floors (1e-30/1e30) not modelled"]
+               "Miser: x^(2/3) by a 2^-300 Newton cube root in the driver; TINY/BIG floors (1e-30/1e30) not modelled",
+               "OUTSIDE THE STATEMENT (audit D2): an OUTER Vegas/Miser integration is corrupted by an integration run INSIDE its integrand (outer 2-D Vegas "
+               "returned the inner result after 108 evaluations; outer Miser differs in the 3rd digit): the statement speaks of integrations run BEFORE the "
+               "observed call, and the function-local statics are the documented restart feature of Integrate_MC_Vegas(init > 0); recorded as the statistic "
+               "outer_with_nested_inner:* in the evidence, never a failure",
+               "the bin-index clamp of fix 66169b8 is not observable from outside (it needs a uniform deviate of exactly 0): detector = Lean obligation vegas_ia_range_unconditional"]
 TRUSTED = ["scipy.special.ndtr as reference for Gaussian integrals"]
 
 METHODS = ["Monte-Carlo", "Vegas", "Miser"]
@@ -62,7 +67,7 @@ def exact_integral(fid, lo, hi, p):
         vol *= hi[i] - lo[i]
     if fid == 0:
         return p[0] * vol
-    if fid == 1:
+    if fid in (1, 6):       # 6: the sum over the WHOLE argument vector - equal to the sum of the d coordinates iff x.size() == d
         return sum((hi[i] + lo[i]) / 2 for i in range(d)) * vol
     if fid == 2:
         r = 1.0
@@ -90,7 +95,7 @@ def fmax_bound(fid, lo, hi, p):
     m = [max(abs(lo[i]), abs(hi[i])) for i in range(d)]
     if fid == 0:
         return abs(p[0])
-    if fid == 1:
+    if fid in (1, 6):
         return sum(m)
     if fid == 2:
         r = 1.0
@@ -122,6 +127,83 @@ def generate(tier, seed, ctx):
         if method == "Monte-Carlo" and k % 13 == 0:
             n = rng.choice([1, 2, 3])
         R.append("c14.call " + call_str(method, rng.randrange(2 ** 32), lo, hi, n, fid, params_of(rng, fid, lo, hi)))
+    # --- the integrand reads the WHOLE argument vector (fid 6): its size must be the dimension for every method
+    for k in range(90 if th else 36):
+        method = METHODS[k % 3]
+        d = 1 + (k // 3) % 6
+        lo, hi = region_of(rng, d, rng.choice([0, 1, 3]))
+        R.append("c14.call " + call_str(method, rng.randrange(2 ** 32), lo, hi, rng.choice([500, 1000, 2000]), 6, []))
+        if k % 3 == 1 or k % 4 == 0:
+            # after integrations of HIGHER dimension on an offset region (stale coordinates beyond ndim would be summed)
+            hd = rng.randint(d + 1, 7) if d < 6 else 6
+            hlo, hhi = region_of(rng, min(hd, 6), 3)
+            hist = call_str(rng.choice([method, "Vegas"]), rng.randrange(2 ** 32), hlo, hhi, 1000, rng.choice([1, 6]), [])
+            R.append("c14.hist %s 1 %s" % (call_str(method, rng.randrange(2 ** 32), lo, hi, 1000, 6, []), hist))
+            R.append("c14.histx %s 1 A %d %s T" % (call_str(method, rng.randrange(2 ** 32), lo, hi, 1000, 6, []), rng.choice([3, 400, 999]), hist))
+    # --- reversed limits on some axes (oriented sign) and zero-width axes (exactly 0), every method
+    for k in range(72 if th else 30):
+        method = METHODS[k % 3]
+        d = rng.randint(1, 5)
+        lo, hi = region_of(rng, d, rng.choice([0, 1, 2]))
+        fid = rng.choice([0, 1, 5, 6])
+        if k % 2 == 0:
+            for i in rng.sample(range(d), rng.randint(1, d)):
+                lo[i], hi[i] = hi[i], lo[i]
+        else:
+            for i in rng.sample(range(d), rng.randint(1, min(d, 2))):
+                hi[i] = lo[i]
+        R.append("c14.call " + call_str(method, rng.randrange(2 ** 32), lo, hi, rng.choice([200, 1000, 2000]), fid, [2.5] if fid == 0 else []))
+        if k % 3 == 0 and d in (2, 3):
+            lim = []
+            for i in range(d):
+                lim += [lo[i], hi[i]]
+            R.append("c14.front%d %s %d %s %d %d %s" % (d, METHODS[(k // 3) % 3], rng.randrange(2 ** 32), " ".join(hx(v) for v in lim), rng.choice([1000, 3000]), fid if fid != 6 else 1,
+                                                      lst([2.5] if fid == 0 else [])))
+    # --- regions far from the origin (|offset| / width up to 1e6, both limits drawn independently) and constants of extreme magnitude
+    for k in range(60 if th else 24):
+        method = METHODS[k % 3]
+        d = rng.randint(1, 6)
+        lo, hi = [], []
+        for i in range(d):
+            if k % 2 == 0:
+                w = 10.0 ** rng.uniform(-3, 3); a = rng.choice([-1, 1]) * w * 10.0 ** rng.uniform(0, 6)
+                lo.append(a); hi.append(a + w)
+            else:
+                a, b = mixed_magnitude(rng, -3, 3), mixed_magnitude(rng, -3, 3)
+                lo.append(min(a, b)); hi.append(max(a, b) if a != b else a + 1.0)
+        fid = rng.choice([0, 1, 5])
+        R.append("c14.call " + call_str(method, rng.randrange(2 ** 32), lo, hi, rng.choice([1000, 4000]), fid, [rng.choice([2.5, -1.0])] if fid == 0 else []))
+    for method in METHODS:
+        for c_ in [1e160, -1e160, 1e-160, 1e-300, 1e200] if th else [1e160, 1e-160]:
+            d = rng.randint(1, 3)
+            lo, hi = region_of(rng, d, rng.choice([0, 1]))
+            R.append("c14.call " + call_str(method, rng.randrange(2 ** 32), lo, hi, 1000, 0, [c_]))
+    # --- the Vector overload of Integrate_3D (spherical coordinates) with the Monte-Carlo methods
+    for k in range(30 if th else 12):
+        r1 = rng.choice([0.0, 0.5, 2.0]); r2 = r1 + rng.choice([0.5, 1.0, 3.0])
+        c1 = rng.choice([-1.0, -0.5, 0.0]); c2 = rng.choice([0.25, 0.5, 1.0])
+        p1 = rng.choice([0.0, 1.0]); p2 = p1 + rng.choice([1.0, 2.0, 3.0])
+        fid = k % 3
+        R.append("c14.front3v %s %d %s %d %d %s" % (METHODS[k % 3] if k % 2 else METHODS[(k // 2) % 3], rng.randrange(2 ** 32), " ".join(hx(v) for v in (r1, r2, c1, c2, p1, p2)),
+                                                   rng.choice([0, 1000, 4000]), fid, lst([2.5] if fid == 0 else [])))
+    # --- STATISTIC (outside the statement, see ASSUMPTIONS): an outer call whose integrand runs a complete inner integration
+    for k in range(18 if th else 9):
+        method = METHODS[k % 3]
+        lo, hi = region_of(rng, 2, 1); ilo, ihi = region_of(rng, rng.randint(1, 3), 1)
+        R.append("c14.outer %s %d %s" % (call_str(method, rng.randrange(2 ** 32), lo, hi, 1000, 5, []), rng.choice([1, 100, 500]),
+                                        call_str(method, rng.randrange(2 ** 32), ilo, ihi, 500, 1, [])))
+    # --- peaked off-centre Gaussians at low budgets in 4..6 dimensions, >= 30 seeds per configuration: bias of the mean
+    PK = 40 if th else 30
+    cfgs = [(6, 1000, 0.05), (6, 1000, 0.1), (5, 4000, 0.1), (4, 1000, 0.3)] + ([(6, 4000, 0.04), (5, 1000, 0.2), (4, 4000, 0.03), (6, 1000, 0.3)] if th else [])
+    ctx["peaked"] = {}
+    for gi_, (d, n, wr) in enumerate(cfgs):
+        lo, hi = region_of(rng, d, rng.choice([0, 1]))
+        wmin = min(hi[i] - lo[i] for i in range(d))
+        p = [lo[i] + rng.uniform(0.2, 0.8) * (hi[i] - lo[i]) for i in range(d)] + [wr * wmin]
+        for method in ("Vegas", "Monte-Carlo"):
+            for _ in range(PK):
+                R.append("c14.call " + call_str(method, rng.randrange(2 ** 32), lo, hi, n, 4, p))
+                ctx["peaked"][len(R) - 1] = (gi_, method)
     # --- budgets: exact multiples of block sizes (2^k, 1000, 4096) and odd ones - constants exactly, polynomials within 6 sigma
     budgets = [1024, 2048, 4096, 8192, 65536, 3 * 4096, 1000, 1500, 12345, 99999] + ([16384, 32768, 2000, 3000, 10000, 4095, 4097] if th else [])
     for n in budgets:
@@ -132,7 +214,8 @@ def generate(tier, seed, ctx):
             R.append("c14.call " + call_str(method, rng.randrange(2 ** 32), lo, hi, n, rng.choice([1, 5]), []))
     # --- large budgets in low dimension (Vegas: the number of stratification cells per axis grows like ncall^(1/ndim):
     #     ng ~ 1e5 in one dimension at 2e5 calls): in-region, constants, evaluation count, six sigma on a polynomial
-    big = [(1, 200000), (2, 200000), (1, 140000)] + ([(1, 1000000), (1, 500000), (2, 1000000), (3, 500000)] if th else [])
+    big = [(1, 200000), (2, 200000), (1, 140000)] + ([(1, 1000000), (1, 500000), (2, 1000000), (3, 500000), (4, 200000), (5, 200000), (6, 200000),
+                                                      (4, 1000000), (5, 1000000), (6, 1000000), (4, 800000)] if th else [])
     for d, n in big:
         for method in METHODS:
             lo, hi = region_of(rng, d, 1)
@@ -305,9 +388,27 @@ def parse_call(a):
     return dict(method=method, seed=seed, d=d, lo=reg[:d], hi=reg[d:], n=n, fid=fid, p=par, end=p + 3 + npar)
 
 
+SIZE_CLAUSE = "integrand called with an argument vector whose size is not the dimension of the region"
+INSIDE_HIST = ": integrand evaluated outside the region (observed call of a history comparison)"
+ZERO_CLAUSE = ": region with a zero-width axis does not integrate to exactly 0"
+
+
+def run_records(name, t, d_known=True):
+    """history ops: two records (fresh, after) of value, evaluations, inside flag, number of wrong-size callbacks"""
+    out = []
+    for j, what in ((0, "fresh"), (4, "after the history")):
+        if t[j + 2] != "1":
+            out.append(fail("prop", name + INSIDE_HIST, what))
+        if t[j + 3] != "0":
+            out.append(fail("prop", SIZE_CLAUSE, "%s: %s callbacks of %s (%s)" % (name, t[j + 3], t[j + 1], what)))
+    return out
+
+
 def inside_fail(name, mins, maxs, lo, hi):
     for i in range(len(lo)):
-        if not (mins[i] >= lo[i] and maxs[i] <= hi[i]):
+        if mins[i] == math.inf and maxs[i] == -math.inf:
+            continue          # no evaluation at all
+        if not (mins[i] >= min(lo[i], hi[i]) and maxs[i] <= max(lo[i], hi[i])):
             return fail("prop", name + ": integrand evaluated outside the region", "axis %d: [%r,%r] not in [%r,%r]" % (i, mins[i], maxs[i], lo[i], hi[i]))
     return None
 
@@ -330,11 +431,37 @@ def const_check(ctx, name, method, v, ex, calls):
         return []
     # the floor TINY = 1e-30 on the variance of an iteration is absolute: for integrals of tiny magnitude (|I| < 1e-8, where
     # I^2/calls^2 approaches TINY) the same mechanism costs up to ~1e-4 relative (observed 5.8e-5 at I = 2e-10)
-    vegas_bound = 1e-6 if abs(ex) >= 1e-8 else 1e-3
+    # ... and with the number of evaluations: the weight that keeps the exact first iteration dominant is eroded by the rounding
+    # noise accumulated over the evaluations of a sweep (audit: 1.5e-6 at 5e6 evaluations in six dimensions): sqrt(evaluations/1e5)
+    vegas_bound = (1e-6 if abs(ex) >= 1e-8 else 1e-3) * max(1.0, math.sqrt(calls / 1e5))
     if method == "Vegas" and rel < vegas_bound:
         bump(ctx, "vegas_constant_not_to_rounding")
         return [fail("prop", VEGAS_CONST_CLAUSE, "%s: %r vs %r (relative %.3g)" % (name, v, ex, rel))]
     return [fail("prop", name + ": constant integrand not integrated exactly", "%r vs %r" % (v, ex))]
+
+
+VEGAS_OVERFLOW_CLAUSE = "Vegas: exits for a constant integrand whose weighted square overflows (|c| >= 1e157 calls / volume)"
+VEGAS_PEAK_CLAUSE = "Vegas: biased low on peaked off-centre Gaussians at low budgets (mean over seeds more than 4 standard errors from the exact value)"
+
+
+def sigma_check(ctx, name, method, fid, lo, hi, par, n, v, ex):
+    """polynomial integrands: within six plain-Monte-Carlo standard errors (closed form) - for plain Monte Carlo this is the
+    estimator's own standard error; a stratified / adaptive method must not be worse than plain sampling"""
+    sg = plain_mc_sigma(fid, lo, hi, par, max(n, 1))
+    if sg is None or n < 30:
+        return []
+    if abs(v - ex) > 6 * sg + 1e-12 * (abs(ex) + abs(float(fmax_bound(fid, lo, hi, par)))):
+        rel = abs(v - ex) / abs(ex) if ex else math.inf
+        spread = sg * math.sqrt(n) / abs(ex) if ex else math.inf       # relative standard deviation of the integrand over the region
+        if method == "Vegas" and spread < 1e-3:
+            # near-constant integrand: the mechanism of the constants (absolute TINY floors on the variance of an iteration)
+            bound = (1e-6 if abs(ex) >= 1e-8 else 1e-3) * max(1.0, math.sqrt(n / 1e5))
+            if rel < max(bound, 1e-3 if spread < 1e-5 else bound):
+                bump(ctx, "vegas_near_constant_beyond_plain_mc_sigma")
+                return [fail("prop", VEGAS_CONST_CLAUSE, "%s: near-constant polynomial (relative spread %.2g): %r vs %r (relative %.3g, plain-MC sigma %.3g)" % (name, spread, v, ex, rel, sg))]
+        return [fail("prop", name + ": estimate farther than six (plain Monte-Carlo) standard errors from the exact value",
+                     "value %r exact %r sigma %.3g budget %d" % (v, ex, sg, n))]
+    return []
 
 
 NONFINITE_CLAUSE = "Integrate_MC returned a non-finite value for a bounded integrand"
@@ -355,16 +482,17 @@ def plain_mc_sigma(fid, lo, hi, p, n):
     for i in range(d):
         vol *= hi[i] - lo[i]
     I = exact_integral(fid, lo, hi, p)
-    if fid in (1, 5):
+    if fid in (1, 5, 6):
         # sum of independent coordinates: Var = sum of the coordinate variances (uniform on [a,b])
-        var = 0.0
+        var = Fraction(0)        # exact: far from the origin the moments cancel to many digits
         for a, b in zip(lo, hi):
-            if fid == 1:
-                var += (b - a) ** 2 / 12.0
+            a, b = Fraction(a), Fraction(b)
+            if fid in (1, 6):
+                var += (b - a) ** 2 / 12
             else:
                 m2 = (b ** 3 - a ** 3) / (3 * (b - a)); m4 = (b ** 5 - a ** 5) / (5 * (b - a))
-                var += max(m4 - m2 * m2, 0.0)
-        return vol * math.sqrt(var / n)
+                var += m4 - m2 * m2
+        return abs(vol) * math.sqrt(float(var) / n)
     if fid == 3:
         I2 = exact_integral(3, lo, hi, [2 * a for a in p])
     elif fid == 4:
@@ -423,13 +551,14 @@ def compare(rq, impl, model, ctx):
         if tag(impl) != "ok":
             return crash_fail("Integrate_MC(%s)" % c["method"], impl)
         t = toks(impl)
-        nf_ = nonfinite_fail("Integrate_MC(%s)" % c["method"], fl(t[0]), fl(t[2]))
+        nf_ = nonfinite_fail("Integrate_MC(%s)" % c["method"], fl(t[0]), fl(t[4]))
         if nf_:
             return nf_
-        if t[0] != t[2] or t[1] != t[3]:
-            return [fail("prop", "Integrate_MC(%s): result depends on integrations run before it (same call and seed, fresh process vs after a history)" % c["method"],
-                         "fresh %s (%s calls) after history %s (%s calls)" % (t[0], t[1], t[2], t[3]))]
-        return []
+        rr = run_records("Integrate_MC(%s)" % c["method"], t)
+        if t[0] != t[4] or t[1] != t[5]:
+            rr.append(fail("prop", "Integrate_MC(%s): result depends on integrations run before it (same call and seed, fresh process vs after a history)" % c["method"],
+                           "fresh %s (%s calls) after history %s (%s calls)" % (t[0], t[1], t[4], t[5])))
+        return rr
     if op == "c14.histx":
         c = parse_call(a)
         name = "Integrate_MC(%s)" % c["method"]
@@ -438,26 +567,72 @@ def compare(rq, impl, model, ctx):
         if tag(impl) != "ok":
             return crash_fail(name, impl)
         t = toks(impl)
-        nf_ = nonfinite_fail(name, fl(t[0]), fl(t[2]))
+        nf_ = nonfinite_fail(name, fl(t[0]), fl(t[4]))
         if nf_:
             return nf_
-        if t[0] != t[2] or t[1] != t[3]:
-            return [fail("prop", name + ": result depends on integrations run before it (same call and seed, fresh process vs after a history with abandoned / enclosing integrations)",
-                         "fresh %s (%s evaluations) after history %s (%s evaluations)" % (t[0], t[1], t[2], t[3]))]
+        rr = run_records(name, t)
+        if t[0] != t[4] or t[1] != t[5]:
+            rr.append(fail("prop", name + ": result depends on integrations run before it (same call and seed, fresh process vs after a history with abandoned / enclosing integrations)",
+                           "fresh %s (%s evaluations) after history %s (%s evaluations)" % (t[0], t[1], t[4], t[5])))
+        return rr
+    if op == "c14.outer":
+        # statistic only (outside the statement): does a complete integration run inside the integrand change the OUTER result?
+        t = toks(impl) if tag(impl) == "ok" else ["nan", "0", "nan", "0"]
+        c = parse_call(a)
+        bump(ctx, "outer_with_nested_inner:%s:%s" % (c["method"], "unchanged" if (t[0] == t[2] and t[1] == t[3]) else "changed"))
         return []
+    if op == "c14.front3v":
+        method = a[0]
+        lim = [fl(t) for t in a[2:8]]
+        n, fid = int(a[8]), int(a[9]); npar = int(a[10]); par = [fl(t) for t in a[11:11 + npar]]
+        name = "Integrate_3D(Vector, %s)" % method
+        ctx["nontrivial"].add((op, method, fid))
+        if tag(impl) != "ok":
+            return crash_fail(name, impl)
+        t = toks(impl)
+        v, calls = fl(t[0]), int(t[1]); mins = [fl(x) for x in t[2:5]]; maxs = [fl(x) for x in t[5:8]]
+        if nonfinite_fail(name, v):
+            return nonfinite_fail(name, v)
+        out = []
+        r1, r2, c1, c2, p1, p2 = lim
+        # the callback sees Cartesian vectors: radius and polar cosine must lie inside the requested ranges (rounding of sin/cos/acos)
+        if not (mins[0] >= r1 * (1 - 1e-12) - 1e-300 and maxs[0] <= r2 * (1 + 1e-12)):
+            out.append(fail("prop", name + ": integrand evaluated outside the requested radial range", "[%r,%r] not in [%r,%r]" % (mins[0], maxs[0], r1, r2)))
+        if not (mins[1] >= c1 - 1e-12 and maxs[1] <= c2 + 1e-12) and not (r1 == 0.0 and mins[0] == 0.0):
+            out.append(fail("prop", name + ": integrand evaluated outside the requested polar range", "[%r,%r] not in [%r,%r]" % (mins[1], maxs[1], c1, c2)))
+        vol = (r2 ** 3 - r1 ** 3) / 3 * (c2 - c1) * (p2 - p1)
+        if fid == 0:
+            ex = par[0] * vol; er2 = (r2 ** 3 - r1 ** 3) / 3 / (r2 - r1); er4 = (r2 ** 5 - r1 ** 5) / 5 / (r2 - r1); sd = abs(par[0]) * math.sqrt(max(er4 - er2 * er2, 0.0))
+        elif fid == 1:
+            ex = (r2 ** 5 - r1 ** 5) / 5 * (c2 - c1) * (p2 - p1); e1 = (r2 ** 5 - r1 ** 5) / 5 / (r2 - r1); e2 = (r2 ** 9 - r1 ** 9) / 9 / (r2 - r1); sd = math.sqrt(max(e2 - e1 * e1, 0.0))
+        else:
+            ex = (r2 ** 4 - r1 ** 4) / 4 * (c2 ** 2 - c1 ** 2) / 2 * (p2 - p1)
+            er6 = (r2 ** 7 - r1 ** 7) / 7 / (r2 - r1); ec2 = (c2 ** 3 - c1 ** 3) / 3 / (c2 - c1); mean_ = ex / ((r2 - r1) * (c2 - c1) * (p2 - p1)); sd = math.sqrt(max(er6 * ec2 - mean_ ** 2, 0.0))
+        nexp = 30000 if n == 0 else n
+        boxvol = (r2 - r1) * (c2 - c1) * (p2 - p1)
+        sg = abs(boxvol) * sd / math.sqrt(nexp)
+        if abs(v - ex) > 6 * sg + 1e-12 * abs(ex):
+            out.append(fail("prop", name + ": estimate farther than six (plain Monte-Carlo) standard errors from the exact value of the spherical integral",
+                            "value %r exact %r sigma %.3g" % (v, ex, sg)))
+        if method != "Vegas" and calls != nexp:
+            out.append(fail("corr", name + ": number of integrand calls differs from the budget", "%d vs %d" % (calls, nexp)))
+        if method == "Vegas" and calls != vegas_cells(nexp, 3)[4]:
+            out.append(fail("prop", name + ": number of integrand evaluations is not 5 sweeps over all ng^ndim stratification cells with npg points each", "%d vs %d" % (calls, vegas_cells(nexp, 3)[4])))
+        return out
     if op in ("c14.fhist2", "c14.fhist3"):
         name = "Integrate_%sD(%s)" % (op[-1], a[0])
         ctx["nontrivial"].add((op, a[0]))
         if tag(impl) != "ok":
             return crash_fail(name, impl)
         t = toks(impl)
-        nf_ = nonfinite_fail(name, fl(t[0]), fl(t[2]))
+        nf_ = nonfinite_fail(name, fl(t[0]), fl(t[4]))
         if nf_:
             return nf_
-        if t[0] != t[2] or t[1] != t[3]:
-            return [fail("prop", name + ": result depends on integrations run before it (same call and seed, fresh process vs after a history on the same region)",
-                         "fresh %s (%s calls) after history %s (%s calls)" % (t[0], t[1], t[2], t[3]))]
-        return []
+        rr = run_records(name, t)
+        if t[0] != t[4] or t[1] != t[5]:
+            rr.append(fail("prop", name + ": result depends on integrations run before it (same call and seed, fresh process vs after a history on the same region)",
+                           "fresh %s (%s calls) after history %s (%s calls)" % (t[0], t[1], t[4], t[5])))
+        return rr
     if op in ("c14.front2", "c14.front3"):
         d = int(op[-1])
         method = a[0]
@@ -476,26 +651,43 @@ def compare(rq, impl, model, ctx):
         if f:
             return [f]
         out = []
+        if any(hi[i] == lo[i] for i in range(d)):
+            return [] if v == 0.0 else [fail("prop", name + ZERO_CLAUSE, repr(v))]
         for i in range(d):
-            if calls >= 500 and (maxs[i] - mins[i]) < 0.8 * (hi[i] - lo[i]):
+            if calls >= 500 and (maxs[i] - mins[i]) < 0.8 * abs(hi[i] - lo[i]):
                 out.append(fail("prop", name + ": samples do not cover the requested range of an axis (region passed in the wrong order)", "axis %d" % i))
         ex = exact_integral(fid, lo, hi, par)
         if fid == 0:
             out += const_check(ctx, name, method, v, ex, calls)
+        elif fid in (1, 5):
+            out += sigma_check(ctx, name, method, fid, lo, hi, par, calls if method == "Vegas" else (30000 if n == 0 else n), v, ex)
         nexp = 30000 if n == 0 else n
         if method != "Vegas" and calls != nexp:
             out.append(fail("corr", name + ": number of integrand calls differs from the budget", "%d vs %d" % (calls, nexp)))
+        if method == "Vegas" and nexp >= 4:
+            ng, nd_, npg, kk, total = vegas_cells(nexp, d)
+            if calls != total:
+                out.append(fail("prop", name + ": number of integrand evaluations is not 5 sweeps over all ng^ndim stratification cells with npg points each",
+                                "%d evaluations, expected 5*%d*%d = %d (ng = %d)" % (calls, npg, kk, total, ng)))
         return out
     # c14.call -------------------------------------------------------------------------------------
     c = parse_call(a)
     d, lo, hi = c["d"], c["lo"], c["hi"]
     name = "Integrate_MC(%s)" % c["method"]
+    if tag(impl) == "err" and c["method"] == "Vegas" and c["fid"] == 0 and abs(c["p"][0]) >= 1e150:
+        return [fail("prop", VEGAS_OVERFLOW_CLAUSE, "%s: constant %r" % (name, c["p"][0]))]
     if tag(impl) != "ok":
         return [fail("prop", name + " crashed / exited on a valid request: " + tag(impl), impl[:200])]
     t = toks(impl)
     v, calls = fl(t[0]), int(t[1]); mins = [fl(x) for x in t[2:2 + d]]; maxs = [fl(x) for x in t[2 + d:2 + 2 * d]]
     nf = int(t[2 + 2 * d]); first = [fl(x) for x in t[3 + 2 * d:3 + 2 * d + nf]]
-    kind = "unit" if lo == [0.0] * d else ("wide" if max(h - l for h, l in zip(hi, lo)) > 50 else ("narrow" if min(h - l for h, l in zip(hi, lo)) < 0.02 else "mid"))
+    if "sz" in t:
+        bad, mxs = int(t[t.index("sz") + 1]), int(t[t.index("sz") + 2])
+        if bad:
+            return [fail("prop", SIZE_CLAUSE, "%s: %d of %d callbacks, largest size %d, dimension %d" % (name, bad, calls, mxs, d))]
+    kind = "unit" if lo == [0.0] * d else ("wide" if max(abs(h - l) for h, l in zip(hi, lo)) > 50 else ("narrow" if min(abs(h - l) for h, l in zip(hi, lo)) < 0.02 else "mid"))
+    if any(h < l for h, l in zip(hi, lo)):
+        kind += "-reversed"
     ctx["nontrivial"].add((op, c["method"], d, c["fid"], kind, tag(model)))
     if nonfinite_fail(name, v):
         return nonfinite_fail(name, v)
@@ -503,13 +695,16 @@ def compare(rq, impl, model, ctx):
     if f:
         return [f]
     out = []
+    if any(hi[i] == lo[i] for i in range(d)):
+        ctx["nontrivial"].add((op, c["method"], "degenerate"))
+        return [] if v == 0.0 else [fail("prop", name + ZERO_CLAUSE, repr(v))]
     ex = exact_integral(c["fid"], lo, hi, c["p"])
-    if c["method"] == "Monte-Carlo" and c["fid"] in (1, 5) and c["n"] >= 30:
-        # plain Monte Carlo on a polynomial: the estimator's standard error is known in closed form, every budget
-        sg = plain_mc_sigma(c["fid"], lo, hi, c["p"], c["n"])
-        if abs(v - ex) > 6 * sg + 1e-12 * (abs(ex) + Fraction(fmax_bound(c["fid"], lo, hi, c["p"]))):
-            return [fail("prop", name + ": estimate farther than six (plain Monte-Carlo) standard errors from the exact value",
-                         "value %r exact %r sigma %.3g budget %d" % (v, ex, sg, c["n"]))]
+    if c["fid"] in (1, 5, 6) and c["n"] >= 30:
+        # polynomials: the standard error of plain Monte Carlo is known in closed form, every budget; the stratified /
+        # adaptive methods must not be worse than plain sampling with the evaluations they actually made
+        sc = sigma_check(ctx, name, c["method"], c["fid"], lo, hi, c["p"], c["n"] if c["method"] != "Vegas" else c["n"], v, ex)
+        if sc:
+            return sc
     if c["fid"] in (3, 4) and c["n"] >= HDR_MIN_CALLS:
         # accuracy clause on the huge-dynamic-range family: within six plain-Monte-Carlo standard errors (generous:
         # the stratified methods must not be worse than plain sampling)
@@ -540,7 +735,7 @@ def compare(rq, impl, model, ctx):
         vol = 1.0
         for i in range(d):
             vol *= hi[i] - lo[i]
-        scale = Fraction(vol) * Fraction(fmax_bound(c["fid"], lo, hi, c["p"]))
+        scale = abs(Fraction(vol)) * Fraction(fmax_bound(c["fid"], lo, hi, c["p"]))
         ax = [abs(Fraction(lo[i])) + abs(Fraction(hi[i])) for i in range(d)]
         knife = "knife" in m and m[m.index("knife") + 1] == "1"
         n0 = len(out)
@@ -585,9 +780,33 @@ def finalize(ctx, exe):
                                      "value %r exact %r standard error (from %d seeds) %.3g" % (v, ex, k, s)), req=rq))
                 break
         else:
-            if abs(mean - ex) > tol / math.sqrt(k) * 1.5:
+            if abs(mean - ex) > 5 * s / math.sqrt(k) + 1e-12 * abs(ex):
                 out.append(dict(fail("prop", "Integrate_MC(%s): mean over seeds farther than six standard errors from the exact value (bias)" % c["method"],
                                      "mean %r exact %r s=%.3g k=%d" % (mean, ex, s, k)), req=items[0][0]))
+    # peaked off-centre Gaussians at low budgets: bias of the mean over >= 30 seeds.  Vegas: against its own spread (it claims to
+    # adapt); plain Monte Carlo: against the closed-form standard error (unbiased; its sample spread is meaningless when hits are rare)
+    pk = {}
+    for i, key in ctx.get("peaked", {}).items():
+        if R[i] in ctx["vals"]:
+            pk.setdefault(key, []).append((R[i],) + ctx["vals"][R[i]])
+    for (gi_, method), items in pk.items():
+        if len(items) < 20:
+            continue
+        vals = [v for _, v, _ in items]; ex = items[0][2]; k = len(vals)
+        mean = sum(vals) / k
+        s = math.sqrt(sum((v - mean) ** 2 for v in vals) / (k - 1))
+        c = parse_call(items[0][0].split()[1:])
+        ctx["nontrivial"].add(("peaked-bias", method, c["d"], c["n"]))
+        if method == "Vegas":
+            sem = s / math.sqrt(k)
+            ctx["stats"]["vegas_peaked_bias_in_sem_x100:d%d:n%d:w%.2g" % (c["d"], c["n"], c["p"][c["d"]])] = int(100 * (mean - ex) / sem) if sem > 0 else -10 ** 9
+            if abs(mean - ex) > 4 * sem + 1e-12 * abs(ex):
+                out.append(dict(fail("prop", VEGAS_PEAK_CLAUSE, "d=%d n=%d width %.3g: mean %r exact %r s=%.3g k=%d" % (c["d"], c["n"], c["p"][c["d"]], mean, ex, s, k)), req=items[0][0]))
+        else:
+            sem = plain_mc_sigma(4, c["lo"], c["hi"], c["p"], c["n"]) / math.sqrt(k)
+            if abs(mean - ex) > 5 * sem + 1e-12 * abs(ex):
+                out.append(dict(fail("prop", "Integrate_MC(Monte-Carlo): mean over seeds farther than five standard errors from the exact value (bias)",
+                                     "mean %r exact %r sem %.3g k=%d" % (mean, ex, sem, k)), req=items[0][0]))
     return out
 
 
